@@ -155,17 +155,24 @@ def _ob_create_tag(pi: int) -> bool:
     return _judge(E, lambda: blk.create_tag("n", "t", pos), lambda: blk.create_tag("n", "t", [1.0]))
 
 
-def _ob_create_multi_tag(pi: int, ei: int) -> bool:
+def _ob_create_multi_tag(pi: int, ei: int, pre_pos: bool, pre_ext: bool) -> bool:
     """
     pre: 0 <= pi < 5 and 0 <= ei < 4
     post: __return__
     """
+    assume(pi == PART)
     E = _fixture()
     blk = E["blk"]
+    # history: arrays with the names the call would auto-create may already exist
+    # (e.g. left over from a deleted multi-tag of the same name)
+    if pre_pos:
+        E["grp"].data_arrays.append(blk.create_data_array("n-positions", "t", data=[1.0]))
+    if pre_ext:
+        E["grp"].data_arrays.append(blk.create_data_array("n-extents", "t", data=[1.0]))
     pos = _pick([E["da1"], [1.0, 2.0], ["a", "b"], None, E["foreign_da"]], pi)
     ext = _pick([None, E["da1"], [1.0, 2.0], ["a", "b"]], ei)
     return _judge(E, lambda: blk.create_multi_tag("n", "t", positions=pos, extents=ext),
-                  lambda: blk.create_multi_tag("n", "t", positions=E["da1"]))
+                  lambda: blk.create_multi_tag("n2", "t", positions=E["da1"]))
 
 
 def _ob_create_feature(di: int, li: int) -> bool:
@@ -236,12 +243,17 @@ def _ob_append_dimension(ki: int, ai: int, bi: int) -> bool:
 
 def _ob_ticks_and_link(oi: int, ai: int) -> bool:
     """
-    pre: 0 <= oi < 3 and 0 <= ai < 5
+    pre: 0 <= oi < 4 and 0 <= ai < 5
     post: __return__
     """
     E = _fixture()
     rdim = E["da"].dimensions[0]
     sdim = E["da"].dimensions[1]
+    if oi == 3:
+        # history: the range dimension takes its ticks from a linked array
+        rdim.link_data_array(E["da"], [0, -1])
+        ticks = _pick([[3.0, 4.0], [4.0, 3.0], [1.0, 1.0, 0.5], ["a"], [5.0]], ai)
+        return _judge(E, lambda: setattr(rdim, "ticks", ticks), lambda: setattr(rdim, "ticks", [7.0, 8.0]))
     if oi == 0:
         ticks = _pick([[3.0, 4.0], [4.0, 3.0], [1.0, 1.0, 0.5], ["a"], [5.0]], ai)
         return _judge(E, lambda: setattr(rdim, "ticks", ticks), lambda: setattr(rdim, "ticks", [7.0, 8.0]))
@@ -467,7 +479,7 @@ OBLIGATIONS = [
     Ob("create_tag_args", _ob_create_tag, timeout=300,
        functions=["nixio.block.Block.create_tag", "nixio.tag.Tag.create_new"],
        replay=_mk_replay("_ob_create_tag")),
-    Ob("create_multi_tag_args", _ob_create_multi_tag, timeout=900,
+    Ob("create_multi_tag_args", _ob_create_multi_tag, timeout=900, partition=[0, 1, 2, 3, 4],
        functions=["nixio.block.Block.create_multi_tag", "nixio.multi_tag.MultiTag.create_new"],
        replay=_mk_replay("_ob_create_multi_tag")),
     Ob("create_feature_args", _ob_create_feature, timeout=900,
